@@ -158,9 +158,10 @@ def verify(code=None, filename=DEFAULT_STUDENT_FILENAME, report=MAIN_REPORT,
                      sys.exc_info(), report=report, muted=muted, enhance=enhance)
         report[TOOL_NAME]['success'] = False
         report[TOOL_NAME]['ast'] = ast.parse("")
-    except (ValueError, RecursionError) as e:
+    except (ValueError, RecursionError, MemoryError) as e:
         # The parser refuses some texts without a SyntaxError (a lone surrogate
-        # cannot be encoded, an expression can be nested too deeply); that is
+        # cannot be encoded, an expression can be nested too deeply or be
+        # "too complex to parse", which CPython reports as a MemoryError); that is
         # still the student's syntax problem, not a reason to crash the grader.
         position = getattr(e, 'start', None) if isinstance(e, UnicodeError) else None
         lineno = 1 if position is None else code.count("\n", 0, position) + 1
